@@ -115,6 +115,8 @@ Definition open_loops_ok : list (list Z * nat) := [
   ([109;97;114;107;95;118;97;114;105;97;98;108;101;95;100;101;102;105;110;105;116;105;111;110], 1%nat);
   (* match_variable_start: bounded by chunk_is_after() and a target chunk of the same list *)
   ([109;97;116;99;104;95;118;97;114;105;97;98;108;101;95;115;116;97;114;116], 1%nat);
+  (* process_return_or_throw: steps back over trailing comments; IsComment() on the chunk fetched is false on the null chunk *)
+  ([112;114;111;99;101;115;115;95;114;101;116;117;114;110;95;111;114;95;116;104;114;111;119], 1%nat);
   (* newlines_if_for_while_switch_pre_blank_lines: positive test (IsNewline) on the chunk just fetched *)
   ([110;101;119;108;105;110;101;115;95;105;102;95;102;111;114;95;119;104;105;108;101;95;115;119;105;116;99;104;95;112;114;101;95;98;108;97;110;107;95;108;105;110;101;115], 1%nat)
 ].
